@@ -160,6 +160,19 @@ func OriginsVia(v ssa.Value) ([]Origin, map[string]bool) {
 				case *ssa.Global:
 					add(Origin{"global", a.String(), a})
 				case *ssa.FreeVar:
+					// a captured variable: what the enclosing function stores in its cell, provided no literal writes it
+					if cell := boundCell(a); cell != nil && !writtenByLiterals(cell) {
+						n := 0
+						for _, r := range *cell.Referrers() {
+							if st, ok := r.(*ssa.Store); ok && st.Addr == ssa.Value(cell) {
+								n++
+								walk(st.Val, d+1)
+							}
+						}
+						if n > 0 {
+							break
+						}
+					}
 					add(Origin{"freevar", a.Name(), a})
 				default:
 					walk(x.X, d+1)
@@ -300,4 +313,61 @@ func rootedInParam(v ssa.Value) (*ssa.Parameter, bool) {
 		}
 	}
 	return nil, false
+}
+
+// boundCell: the enclosing function's cell a free variable is bound to (nil if not a plain local cell).
+func boundCell(fv *ssa.FreeVar) *ssa.Alloc {
+	f := fv.Parent()
+	if f == nil || f.Parent() == nil {
+		return nil
+	}
+	var cell *ssa.Alloc
+	forEachInstr(f.Parent(), func(_ *ssa.BasicBlock, _ int, in ssa.Instruction) {
+		if mc, ok := in.(*ssa.MakeClosure); ok && mc.Fn == ssa.Value(f) {
+			for i, v := range f.FreeVars {
+				if v == fv && i < len(mc.Bindings) {
+					if a, isA := mc.Bindings[i].(*ssa.Alloc); isA {
+						cell = a
+					}
+				}
+			}
+		}
+	})
+	return cell
+}
+
+// writtenByLiterals: some function literal capturing the cell stores to it.
+func writtenByLiterals(cell *ssa.Alloc) bool {
+	written := false
+	for _, r := range *cell.Referrers() {
+		mc, ok := r.(*ssa.MakeClosure)
+		if !ok {
+			continue
+		}
+		f, _ := mc.Fn.(*ssa.Function)
+		if f == nil {
+			written = true
+			continue
+		}
+		for i, b := range mc.Bindings {
+			if b != ssa.Value(cell) || i >= len(f.FreeVars) {
+				continue
+			}
+			fv := f.FreeVars[i]
+			for _, fr := range *fv.Referrers() {
+				switch y := fr.(type) {
+				case *ssa.Store:
+					if y.Addr == ssa.Value(fv) {
+						written = true
+					}
+				case *ssa.MakeClosure:
+					written = true // captured again further down: not followed
+				case *ssa.UnOp:
+				default:
+					written = true // address escapes (field address, call argument, ...)
+				}
+			}
+		}
+	}
+	return written
 }
